@@ -84,15 +84,16 @@ Proof.
 Qed.
 
 Lemma loopn_erase : forall l u rdt p tz ser s0 l',
-  rs_erase l = l' -> Forall rs_ok l' ->
+  rs_erase l = l' -> Forall rs_ok l' -> quiet tz ->
   loopn (ast u rdt p tz ser s0) l = (ast u rdt p (addrs tz l') ser s0, None).
 Proof.
-  induction l as [|s l IH]; intros u rdt p tz ser s0 l' He Hok; cbn [rs_erase filter] in He.
+  induction l as [|s l IH]; intros u rdt p tz ser s0 l' He Hok Hq; cbn [rs_erase filter] in He.
   - subst l'. reflexivity.
   - cbn [loopn]. destruct (rs_glue s) eqn:Hg; cbn [negb] in He.
     + rewrite step_glue_skip by exact Hg. apply IH; assumption.
     + subst l'. inversion Hok as [|? ? Hs Hok']; subst.
-      rewrite (step_rs_add _ _ _ _ _ _ _ _ Hs). cbn [addrs]. apply IH; [reflexivity|exact Hok'].
+      rewrite (step_rs_add _ _ _ _ _ _ _ _ Hs Hq). cbn [addrs]. apply IH; [reflexivity|exact Hok'|].
+      apply quiet_zput; [exact Hq|apply Hs].
 Qed.
 
 (* a record of a response that may carry out-of-zone glue *)
@@ -127,23 +128,23 @@ Qed.
 (* the driver on a full transfer whose body may contain glue *)
 Lemma cont_full_glue : forall ws one_rr g a rdt p tz ser v c,
   parse_ok_glue g -> parse_ok_glue (group one_rr) -> ttl_ok (v_ttl v) ->
-  Forall (header_ok rdt) ws -> Forall okrec c -> zsorted tz ->
+  Forall (header_ok rdt) ws -> Forall okrec c -> zsorted tz -> quiet tz ->
   a ++ concat (map w_records ws) = c ++ [soa_rr v] ->
   exists z' n, cont one_rr (loop (ast false rdt p tz ser (single (soa_rr v))) (g a)) ws = (Done z', n)
     /\ zeq z' (zput soakey (v_ttl v, [v_soa v]) (adds tz (erase c))).
 Proof.
-  induction ws as [|w ws IH]; intros one_rr g a rdt p tz ser v c Hg Hg1 Httl Hh Hc Hz Hcat.
+  induction ws as [|w ws IH]; intros one_rr g a rdt p tz ser v c Hg Hg1 Httl Hh Hc Hz Hq Hcat.
   - cbn [map concat] in Hcat. rewrite app_nil_r in Hcat. subst a.
     destruct Hg as ((_ & G2 & G3) & G1 & G4). rewrite (G1 c (soa_rr v) eq_refl).
     pose proof (erase_plain c Hc) as Hpl.
-    rewrite loop_snoc, (loopn_erase _ _ _ _ _ _ _ _ (G4 c) (G2 _ Hpl)), (step_final_full _ _ _ _ _ _ Httl).
+    rewrite loop_snoc, (loopn_erase _ _ _ _ _ _ _ _ (G4 c) (G2 _ Hpl) Hq), (step_final_full _ _ _ _ _ _ Httl (quiet_addrs _ _ (G2 _ Hpl) Hq)).
     cbn [cont done pub]. eexists. eexists. split; [reflexivity|].
     intros k. rewrite !look_zput. destruct (key_eqb k soakey); [reflexivity|apply G3; assumption].
   - apply app_snoc_split in Hcat. destruct Hcat as [[c' [-> Hrest]]|[-> Hrest]].
     + apply Forall_app in Hc. destruct Hc as [Ha Hc'].
       destruct Hg as ((_ & G2 & G3) & G1 & G4).
       pose proof (erase_plain a Ha) as Hpl.
-      rewrite (loop_loopn _ _ _ (loopn_erase _ _ _ _ _ _ _ _ (G4 a) (G2 _ Hpl))).
+      rewrite (loop_loopn _ _ _ (loopn_erase _ _ _ _ _ _ _ _ (G4 a) (G2 _ Hpl) Hq)).
       cbn [cont]. unfold ast at 1. cbn [done]. fold (ast false rdt p (addrs tz (g (erase a))) ser (single (soa_rr v))).
       inversion Hh as [|? ? Hw Hws]; subst.
       rewrite drive_cons by solve_req. unfold from_wire.
@@ -151,7 +152,7 @@ Proof.
       cbn [map concat] in Hrest.
       assert (Hz1 : zsorted (addrs tz (g (erase a)))).
       { eapply zsorted_zeq; [apply G3; assumption|apply adds_sorted, Hz]. }
-      destruct (IH one_rr (group one_rr) (w_records w) rdt p (addrs tz (g (erase a))) ser v c' Hg1 Hg1 Httl Hws Hc' Hz1 Hrest)
+      destruct (IH one_rr (group one_rr) (w_records w) rdt p (addrs tz (g (erase a))) ser v c' Hg1 Hg1 Httl Hws Hc' Hz1 (quiet_addrs _ _ (G2 _ Hpl) Hq) Hrest)
         as [z' [n [Hn Hz']]].
       rewrite Hn. exists z', (S n). split; [reflexivity|].
       eapply zeq_trans; [exact Hz'|]. intros k. rewrite !look_zput.
@@ -159,7 +160,7 @@ Proof.
       apply adds_zeq. apply G3; assumption.
     + destruct Hg as ((_ & G2 & G3) & G1 & G4). rewrite (G1 c (soa_rr v) eq_refl).
       pose proof (erase_plain c Hc) as Hpl.
-      rewrite loop_snoc, (loopn_erase _ _ _ _ _ _ _ _ (G4 c) (G2 _ Hpl)), (step_final_full _ _ _ _ _ _ Httl).
+      rewrite loop_snoc, (loopn_erase _ _ _ _ _ _ _ _ (G4 c) (G2 _ Hpl) Hq), (step_final_full _ _ _ _ _ _ Httl (quiet_addrs _ _ (G2 _ Hpl) Hq)).
       cbn [cont done pub]. eexists. eexists. split; [reflexivity|].
       intros k. rewrite !look_zput. destruct (key_eqb k soakey); [reflexivity|apply G3; assumption].
 Qed.
@@ -179,7 +180,7 @@ Proof.
   rewrite (first_message_axfr z0 ser w (soa_rr v) a Hw Hr) by (split; reflexivity).
   pose proof Hv as [Httl Hwf].
   destruct (cont_full_glue ws' false (map single) a tAXFR z0 [] (match ser with Some sv => sv | None => 0 end) v
-              B parse_single_ok_glue parse_group_ok_glue Httl Hws HB zsorted_nil Hcat)
+              B parse_single_ok_glue parse_group_ok_glue Httl Hws HB zsorted_nil quiet_nil Hcat)
     as [z' [n [Hn Hz']]].
   exists z', n. split; [exact Hn|]. apply full_target; [exact Hv|].
   eapply zeq_trans; [exact Hz'|]. apply zput_zeq, adds_same_set; [exact PB|apply zsorted_nil].
@@ -221,6 +222,7 @@ Proof.
     destruct (cont_full_glue [] true (map single) (c ++ [soa_rr v]) tIXFR p (adds [] (erase [r])) ser v c
                 parse_single_ok_glue PG Httl Hh Hc) as [z' [n [Hn Hz']]].
     { apply adds_sorted, zsorted_nil. }
+    { apply quiet_adds; [apply erase_plain; constructor; [exact Hr|constructor]|exact quiet_nil]. }
     { cbn. rewrite app_nil_r. reflexivity. }
     exists z', n. split; [exact Hn|].
     change (r :: c) with ([r] ++ c). rewrite erase_app, adds_app. exact Hz'.
@@ -240,6 +242,7 @@ Proof.
       destruct (cont_full_glue (w :: ws) true (map single) a tIXFR p (adds [] (erase [r])) ser v c
                   parse_single_ok_glue PG Httl Hh Hc) as [z' [n [Hn Hz']]].
       { apply adds_sorted, zsorted_nil. }
+      { apply quiet_adds; [apply erase_plain; constructor; [exact Hr|constructor]|exact quiet_nil]. }
       { assumption. }
       exists z', n. split; [exact Hn|].
       change (r :: c) with ([r] ++ c). rewrite erase_app, adds_app. exact Hz'.
@@ -287,31 +290,33 @@ Qed.
 
 (* the version that is needed: all non-glue records are plain *)
 Lemma loopn_erase_dels : forall x u p tz tz' ser s0,
-  Forall okrec x -> dels tz (erase x) = Some tz' ->
+  Forall okrec x -> quiet tz -> dels tz (erase x) = Some tz' ->
   loopn (ist u p tz ser s0 false true) (map single x) = (ist u p tz' ser s0 false true, None).
 Proof.
-  induction x as [|r x IH]; intros u p tz tz' ser s0 Hok Hd; cbn [map erase filter] in *.
+  induction x as [|r x IH]; intros u p tz tz' ser s0 Hok Hq Hd; cbn [map erase filter] in *.
   - inversion Hd; reflexivity.
   - inversion Hok as [|? ? Hr Hok']; subst. fold (erase x) in Hd. cbn [loopn].
     destruct Hr as [Hg|Hp].
     + rewrite Hg in Hd. cbn [negb] in Hd. rewrite step_glue_skip_ist by exact Hg. apply IH; assumption.
     + assert (Hg : glue r = false).
       { destruct Hp as (_ & _ & Hn & _). unfold glue. apply andb_false_iff. left. apply Z.ltb_ge. exact Hn. }
-      rewrite Hg in Hd. cbn [negb dels] in Hd. unfold ist at 1. rewrite step_plain_del by exact Hp.
-      destruct (del1 (look tz (rkey r)) (r_data r)); [|discriminate]. apply IH; assumption.
+      rewrite Hg in Hd. cbn [negb dels] in Hd. unfold ist at 1. rewrite step_plain_del by assumption.
+      destruct (del1 (look tz (rkey r)) (r_data r)) as [oe|] eqn:E; [|discriminate]. apply IH; try assumption.
+      apply quiet_zset; [exact Hq|]. unfold del1 in E. destruct (look tz (rkey r)); discriminate.
 Qed.
 
 Lemma loopn_erase_adds : forall x u p tz ser s0,
-  Forall okrec x ->
+  Forall okrec x -> quiet tz ->
   loopn (ist u p tz ser s0 false false) (map single x) = (ist u p (adds tz (erase x)) ser s0 false false, None).
 Proof.
-  induction x as [|r x IH]; intros u p tz ser s0 Hok; cbn [map erase filter]; [reflexivity|].
+  induction x as [|r x IH]; intros u p tz ser s0 Hok Hq; cbn [map erase filter]; [reflexivity|].
   inversion Hok as [|? ? Hr Hok']; subst. fold (erase x). cbn [loopn].
   destruct Hr as [Hg|Hp].
   - rewrite Hg. cbn [negb]. rewrite step_glue_skip_ist by exact Hg. apply IH; assumption.
   - assert (Hg : glue r = false).
     { destruct Hp as (_ & _ & Hn & _). unfold glue. apply andb_false_iff. left. apply Z.ltb_ge. exact Hn. }
-    rewrite Hg. cbn [negb adds]. unfold ist at 1. rewrite step_plain_add by exact Hp. apply IH; assumption.
+    rewrite Hg. cbn [negb adds]. unfold ist at 1. rewrite step_plain_add by assumption. apply IH; [assumption|].
+    apply quiet_zput; [exact Hq|rewrite rkey_kind; apply Hp].
 Qed.
 
 Inductive ixfr_seqs_glue : version -> list version -> list rr -> Prop :=
@@ -340,12 +345,15 @@ Proof.
   intros u p tz vn a b e D A [Hta Ha] [Htb Hb] Hne Hs Hz OD OA PD PA.
   destruct (diff_apply (v_rest a) (v_rest b) tz Ha Hb Hz) as [z1 [Hd [_ Hadd]]].
   destruct (dels_perm _ (erase D) tz z1 (Permutation_sym PD) Hs Hd) as [z1' [Hd' Hz1]].
+  assert (Hq : quiet tz) by (apply (agree_quiet (v_rest a)); assumption).
+  assert (Hq1 : quiet z1') by (apply (quiet_dels _ _ _ Hd' Hq)).
+  assert (Hq2 : quiet (zput soakey (v_ttl b, [v_soa b]) z1')) by (apply quiet_zput; [exact Hq1|discriminate]).
   exists (adds (zput soakey (v_ttl b, [v_soa b]) z1') (erase A)). split.
   - cbn [map loopn]. rewrite step_del_start by assumption.
     rewrite map_app, loopn_app.
-    rewrite (loopn_erase_dels D u p tz z1' _ _ OD Hd').
+    rewrite (loopn_erase_dels D u p tz z1' _ _ OD Hq Hd').
     cbn [map loopn]. rewrite step_add_start by assumption.
-    rewrite (loopn_erase_adds A u p _ _ _ OA). reflexivity.
+    rewrite (loopn_erase_adds A u p _ _ _ OA Hq2). reflexivity.
   - assert (S1 : zsorted z1').
     { intros k. pose proof (look_dels_fd _ _ _ Hd' k) as F.
       clear - F Hs. revert F. generalize (look z1' k). generalize (Hs k). generalize (look tz k).
@@ -402,8 +410,8 @@ Proof.
   { eapply zsorted_zeq; [exact Hz|apply zsorted_zone_of, Hv0]. }
   { apply chain_ok_soa, Hok. }
   { intros k Hk. rewrite Hz, look_zone_of. apply key_eqb_neq in Hk. rewrite Hk. reflexivity. }
-  pose proof (version_wf_last chain v0 Hv0 Hchain) as [Httl _].
-  pose proof (step_final false z0 tz' (last chain v0) Httl) as Hf.
+  pose proof (version_wf_last chain v0 Hv0 Hchain) as Hvn. pose proof Hvn as [Httl _].
+  pose proof (step_final false z0 tz' (last chain v0) Httl (zeq_zone_of_quiet _ _ Hvn Hz')) as Hf.
   unfold inbound_xfr, xfr_run. rewrite init_ixfr. cbn [Z.eqb tIXFR Pos.eqb]. rewrite drive_cons by solve_req.
   rewrite (first_message_ixfr z0 (v_serial v0) false w (soa_rr (last chain v0)) a Hw Hr) by (split; reflexivity).
   cbv zeta. change (r_data (soa_rr (last chain v0)) mod two32) with (v_serial (last chain v0)).
